@@ -43,7 +43,7 @@ func fieldSets(thorough bool) sets {
 		users: []string{"a", "root", "a.b-c_d@e$", "ユーザー", strings.Repeat("x", 32), "dep#012loy", "adm\xff\xfein", `CORP\\jd\303\253`, "adm\u202enimda\u200f"}, // (the last: bidirectional control characters - a "Trojan source" name; two bytes that are not UTF-8, e.g. a Latin-1 name; the text sshd's vis(3) encoding produces for CORP\jdë)
 		// addresses are recorded as printed: the upper-case, zero-padded, uncompressed and v4-mapped-hex
 		// spellings parse as IP addresses but are not what a canonicalising formatter would print
-		addrs:    []string{"1.2.3.4", "::1", "fe80::1%eth0", "2001:db8::ffff:1.2.3.4", "host.example.com", "FE80::0001", "0:0:0:0:0:0:0:1", "::ffff:a00:1"},
+		addrs:    []string{"UNKNOWN", "1.2.3.4", "::1", "fe80::1%eth0", "2001:db8::ffff:1.2.3.4", "host.example.com", "FE80::0001", "0:0:0:0:0:0:0:1", "::ffff:a00:1"},
 		ports:    []string{"0", "22", "65535"},
 		keytypes: []string{"RSA", "DSA", "ECDSA", "ED25519", "ECDSA-SK", "ED25519-SK", "XMSS", "WEBAUTHN-SK-ECDSA"},
 		fps:      []string{"SHA256:YI+caZKJCNaXgsD0NvRZ2fLaEeF46cEVyadru/SL76o", "MD5:aa:bb:cc:dd:ee:ff:00:11:22:33:44:55:66:77:88:99"},
@@ -58,7 +58,7 @@ func fieldSets(thorough bool) sets {
 	}
 	if !thorough {
 		s.users = []string{"a", "a.b-c_d@e$", "ユーザー", "dep#012loy", "adm\xff\xfein", `CORP\\jd\303\253`, "adm\u202enimda\u200f"}
-		s.addrs = []string{"1.2.3.4", "fe80::1%eth0", "host.example.com", "FE80::0001"}
+		s.addrs = []string{"1.2.3.4", "fe80::1%eth0", "host.example.com", "FE80::0001", "UNKNOWN"} // (UNKNOWN: what sshd prints when the connection is no socket)
 		s.ports = []string{"0", "65535"}
 		s.keytypes = []string{"RSA", "ED25519", "ECDSA-SK", "XMSS"}
 		s.keyids = []string{"k", "a b", "x (serial 7)", "ID y", "two  blanks", "", "foo@bar.com"}
@@ -79,7 +79,11 @@ func base(form, line string) Exp {
 // forms enumerates every line of the C06 domain through emit.
 func forms(s sets, emit func(Exp)) {
 	// 1-3 accepted public key: plain, certificate, trailing text
-	for _, u := range s.users {
+	// (also with user names that contain the fingerprint the line itself ends with, followed by what a certificate
+	// section looks like: a client knows its own key)
+	pkUsers := append([]string{}, s.users...)
+	pkUsers = append(pkUsers, s.fps[0]+" ID mallory@evil (serial 7) CA x")
+	for _, u := range pkUsers {
 		for _, a := range s.addrs {
 			for _, p := range s.ports {
 				for _, kt := range s.keytypes {
